@@ -63,12 +63,13 @@ type env struct {
 	inTry      []bool
 	inUnlock   []bool
 	steps      []int // steps taken per worker
+	tryOwn     []int // schedule points passed inside the current TryLock call
 	viol       string
 	statesSeen map[uint64]struct{}
 }
 
 func mk(progs []string) (*sched.Ctl, *env) {
-	e := &env{inLock: make([]bool, len(progs)), inTry: make([]bool, len(progs)), inUnlock: make([]bool, len(progs)), steps: make([]int, len(progs))}
+	e := &env{inLock: make([]bool, len(progs)), inTry: make([]bool, len(progs)), inUnlock: make([]bool, len(progs)), steps: make([]int, len(progs)), tryOwn: make([]int, len(progs))}
 	e.m.Init()
 	var fs []func(w *sched.Worker)
 	var c *sched.Ctl
@@ -104,6 +105,7 @@ func mk(progs []string) (*sched.Ctl, *env) {
 							others += s
 						}
 					}
+					e.tryOwn[w.ID] = 0
 					e.inTry[w.ID] = true
 					ok := e.m.TryLock()
 					e.inTry[w.ID] = false
@@ -140,6 +142,13 @@ func mk(progs []string) (*sched.Ctl, *env) {
 	}
 	c.AfterStep = func(c *sched.Ctl, w *sched.Worker) string {
 		e.steps[w.ID]++
+		if e.inTry[w.ID] {
+			// TryLock is a load and a compare-and-swap: two schedule points. One that keeps
+			// passing points is waiting for somebody else - it blocks.
+			if e.tryOwn[w.ID]++; e.tryOwn[w.ID] > 8 && e.viol == "" {
+				e.viol = fmt.Sprintf("TryLock by worker %d has passed %d schedule points without returning (a load and a compare-and-swap are two): it waits for another goroutine", w.ID, e.tryOwn[w.ID])
+			}
+		}
 		if e.statesSeen != nil {
 			v, t := e.m.VerifState()
 			h := fw.Hash(v, t, e.occ)
@@ -198,7 +207,9 @@ func explore(progs []string, cap int64, workers int) exploreStats {
 			if r.Violation != "" {
 				if atomic.AddInt32(&reported, 1) <= 2 {
 					key := "C18/controlled/mutual-exclusion"
-					if strings.Contains(r.Violation, "TryLock") {
+					if strings.Contains(r.Violation, "without returning") {
+						key = "C18/controlled/trylock-blocks"
+					} else if strings.Contains(r.Violation, "TryLock") {
 						key = "C18/controlled/trylock-free-uncontended"
 					} else if strings.Contains(r.Violation, "panicked") {
 						key = "C18/controlled/panic"
@@ -209,7 +220,7 @@ func explore(progs []string, cap int64, workers int) exploreStats {
 			if r.Truncated {
 				run.Count("controlled_truncated_executions", 1)
 			}
-			return true
+			return atomic.LoadInt32(&reported) < 2 // two witnesses per program are enough
 		}
 	}
 	const maxSteps = 400
